@@ -62,6 +62,13 @@ VK_MAIN()
                 if (pi >= 0 && pi < VK_PM) p[pi] = vin.b[VK_NSYM + k];
         }
 #elif defined(VK_BACKDROP)
+#ifndef VK_PW1
+#define VK_PW1 VK_W1
+#define VK_PW2 VK_W2
+#endif
+#ifndef VK_BD_B2
+#define VK_BD_B2 VK_BD_B
+#endif
         /* long instances: a constant backdrop with symbolic windows at both ends of text and pattern
          * (positions < VK_W1 and >= len - VK_W2); the window contents range over all 13 classes */
         {
@@ -71,8 +78,8 @@ VK_MAIN()
                         else t[i] = (uint8_t)((i * VK_BD_A + VK_BD_B) % VK_BD_MOD);
                 }
                 for (int i = 0; i < VK_PM; i++) {
-                        if (i < VK_W1 || i >= VK_PM - VK_W2) { VK_ASSUME(vin.b[k] < VK_NSYMB); p[i] = vin.b[k]; k++; }
-                        else p[i] = (uint8_t)((i * VK_BD_A + VK_BD_B) % VK_BD_MOD);
+                        if (i < VK_PW1 || i >= VK_PM - VK_PW2) { VK_ASSUME(vin.b[k] < VK_NSYMB); p[i] = vin.b[k]; k++; }
+                        else p[i] = (uint8_t)((i * VK_BD_A + VK_BD_B2) % VK_BD_MOD);   /* VK_BD_B2 != VK_BD_B: text and pattern far apart */
                 }
         }
 #else
